@@ -305,6 +305,23 @@ func c15Gen(r *Rng, tier string, emit func(Case)) {
 	for _, sp := range specialTextVariants() {
 		E(true, "meta.seqdata "+hx(sp), "seqdata", "special-text")
 	}
+	// histories: a failed read of a damaged long event first, then the round trip.  The cases that are failing
+	// histories by themselves (long declared length, some bytes present, long payload afterwards) come first, so that
+	// the first failure kept as the replay does not depend on what ran earlier in the process.
+	for pass := 0; pass < 2; pass++ {
+		for i, n := range []int{4097, 5000, 8192, 12000, 16384, 20000, 0, 1, 127, 128, 4095, 4096} {
+			for j, declared := range []int{6000, 4097, 20000, 70000, 200, 4096} {
+				for _, present := range []int{100, 1, declared / 2, declared - 1, 0} {
+					self := n > 4096 && declared > 4096 && present > 0
+					if self != (pass == 0) || present >= declared || !thorough && (i+j+present)%3 != 0 {
+						continue
+					}
+					t := c15Texts[(i+j+present)%len(c15Texts)]
+					E(true, fmt.Sprintf("meta.afterfail %s %d %d %d %d %d", t.name, n, r.Intn(256), r.Intn(255), declared, present), "afterfail", lenTag(n))
+				}
+			}
+		}
+	}
 	nr := 400
 	if thorough {
 		nr = 6000
@@ -685,6 +702,53 @@ func runC15Op(c Case, m *Model) (v Verdict) {
 			tie(m.Ask(c.Op), c15Digest(msg), g)
 		} else {
 			tie(m.Ask(c.Op), hx(msg), g)
+		}
+	case "meta.afterfail":
+		// history: accessors that fail on a damaged (truncated) long event, then a round trip of a long payload
+		var t *c15Text
+		for i := range c15Texts {
+			if len(arg) > 0 && c15Texts[i].name == arg[0] {
+				t = &c15Texts[i]
+			}
+		}
+		p, okp := c15Ints(arg[1:])
+		if t == nil || !okp || len(p) != 5 {
+			mism("bad op")
+			return
+		}
+		n, declared, present := p[0], p[3], p[4]
+		d := c15Fill(n, p[1], p[2])
+		junk := c15Fill(present, p[2]+1, p[1]+1)
+		for _, typ := range []byte{t.typ, 0x7F} {
+			bad := append(append([]byte{0xFF, typ}, specVLQ(uint32(declared))...), junk...)
+			if pn := try(func() {
+				var s string
+				var b []byte
+				t.get(smf.Message(bad), &s)
+				smf.Message(bad).GetMetaSeqData(&b)
+			}); pn != "" {
+				oracle("panic on a truncated event: %s", pn)
+				return
+			}
+		}
+		var msg, msg2 smf.Message
+		var got string
+		var got2 []byte
+		var ok, ok2 bool
+		if pn := try(func() {
+			msg = t.mk(string(d))
+			ok = t.get(msg, &got)
+			msg2 = smf.MetaSequencerData(d)
+			ok2 = msg2.GetMetaSeqData(&got2)
+		}); pn != "" {
+			oracle("panic: %s", pn)
+			return
+		}
+		if !ok || got != string(d) {
+			oracle("after accessors failed on a truncated event (declared %d, %d present): Meta<%s>(%d bytes) read back by its accessor: ok=%v, %d bytes, first difference at %d", declared, present, t.name, len(d), ok, len(got), c15FirstDiff([]byte(got), d))
+		}
+		if n > 0 && (!ok2 || !bytes.Equal(got2, d)) {
+			oracle("after accessors failed on a truncated event (declared %d, %d present): MetaSequencerData(%d bytes) read back: ok=%v, %d bytes, first difference at %d", declared, present, len(d), ok2, len(got2), c15FirstDiff(got2, d))
 		}
 	case "meta.seqdata", "meta.seqfill":
 		var d []byte
